@@ -207,6 +207,64 @@ pub fn check_spans(rep: &mut Report, input: &[u8], q: &Q, tag: &str) -> bool {
     }
     // the same spans from every source
     let base: Vec<Vec<Span>> = ds.iter().map(collect_spans).collect();
+    // ... and from a parser on which other calls (expect_end, which peeks and may
+    // report an error position) are interleaved between the items
+    {
+        rep.eval();
+        let interleaved = |spans_of: &mut dyn FnMut() -> Option<Vec<Vec<Span>>>| spans_of();
+        let mut run_slice = || -> Option<Vec<Vec<Span>>> {
+            let mut p = Parser::from_slice_custom(input, o);
+            let mut out = Vec::new();
+            for _ in 0..cap {
+                let _ = p.expect_end();
+                match p.next_datum() {
+                    Ok(Some(d)) => out.push(collect_spans(&d)),
+                    Ok(None) => return Some(out),
+                    Err(_) => return None,
+                }
+                let _ = p.expect_end();
+            }
+            Some(out)
+        };
+        match interleaved(&mut run_slice) {
+            Some(sp) if sp == base => rep.count("spans:stable-under-interleaved-calls"),
+            other => {
+                let mut msg = "different items".to_string();
+                if let Some(sp) = &other {
+                    'f: for (a, b) in base.iter().zip(sp.iter()) {
+                        for (x, y) in a.iter().zip(b.iter()) {
+                            if x != y {
+                                msg = format!("a fresh parser reports {} but a parser with expect_end() calls between the items reports {}", spos(*x), spos(*y));
+                                break 'f;
+                            }
+                        }
+                    }
+                }
+                rep.violation("history", "C11:spans-depend-on-call-history:slice".into(), format!("input {:?} with {}: {}", show(input), q.describe(), msg), replay.clone());
+                return true;
+            }
+        }
+        if let Ok(st) = std::str::from_utf8(input) {
+            let mut p = Parser::from_str_custom(st, o);
+            let mut out = Vec::new();
+            let mut ok = true;
+            for _ in 0..cap {
+                let _ = p.expect_end();
+                match p.next_datum() {
+                    Ok(Some(d)) => out.push(collect_spans(&d)),
+                    Ok(None) => break,
+                    Err(_) => {
+                        ok = false;
+                        break;
+                    }
+                }
+            }
+            if !ok || out != base {
+                rep.violation("history", "C11:spans-depend-on-call-history:str".into(), format!("input {:?} with {}: spans from a &str parser with expect_end() calls between items differ from those of a fresh slice parser", show(input), q.describe()), replay.clone());
+                return true;
+            }
+        }
+    }
     let mut others: Vec<(&str, Option<Vec<Datum>>)> = vec![("stream", datums(Parser::from_reader_custom(input, o), cap))];
     if let Ok(s) = std::str::from_utf8(input) {
         others.push(("str", datums(Parser::from_str_custom(s, o), cap)));
